@@ -513,7 +513,11 @@ func (ex *Exec) callSSA(caller *frame, callpos token.Pos, fn *ssa.Function, args
 		panic(pathEnd{kind: "cap", msg: fmt.Sprintf("call depth cap %d exceeded in %s", ex.w.cfg.MaxDepth, fn)})
 	}
 	info := ex.w.fnInfoOf(fn)
-	if fn.Parent() == nil {
+	skip := ex.skipIntrinsic == fn
+	if skip {
+		ex.skipIntrinsic = nil
+	}
+	if fn.Parent() == nil && !(skip && fn.Blocks != nil) {
 		if ex.inInit && info.isPkgInit && !info.initWanted {
 			return nil // initialiser of a package that is not interpreted
 		}
@@ -1016,4 +1020,11 @@ func pkgPathOf(fn *ssa.Function) string {
 		return strings.TrimLeft(s[:i], "(*")
 	}
 	return ""
+}
+
+
+// callBody runs fn's SSA body even though an intrinsic is registered for it.
+func (ex *Exec) callBody(caller *frame, fn *ssa.Function, args []Value) Value {
+	ex.skipIntrinsic = fn
+	return ex.callSSA(caller.caller, 0, fn, args, nil)
 }
